@@ -70,6 +70,25 @@ def gen(rng, tier):
     for u in us:
         for s in scalar_patterns(rng)[:: (12 if tier == "quick" else 2)]:
             cs.append(Case("precalc %s %s" % (hx(u), hx(s)), cls="precalc/special-point"))
+    # honest peers whose shared secret has an all-zero HALF (or is tiny): only the all-zero output may be refused.
+    # The peer key is crafted as [s⁻¹ mod ℓ]·T for a target point T with such an x-coordinate.
+    targets = [9, 2, 3] + [k << 128 for k in range(1, 40)] + [k for k in range(4, 60)]
+    made = 0
+    for T in targets:
+        if made >= (12 if tier == "quick" else 60):
+            break
+        sk = rbytes(rng, 32)
+        pk = refs.x25519_base(sk)
+        peer = refs.x25519_peer_for_output(sk, T)
+        q = refs.x25519(sk, peer)
+        if q != T.to_bytes(32, "little"):
+            continue
+        made += 1
+        for op in ("kx_client", "kx_server"):
+            cs.append(Case("%s %s %s %s" % (op, hx(pk), hx(sk), hx(peer)), cls="kx/half-zero-secret", expect=(lambda a: a.startswith("ok ")),
+                           meta={"why": "a valid peer key whose shared secret %s (non-zero) was refused" % q.hex()}))
+        cs.append(Case("scalarmult %s %s" % (hx(sk), hx(peer)), cls="scalarmult/half-zero-output", expect="ok " + hx(q)))
+        cs.append(Case("precalc %s %s" % (hx(peer), hx(sk)), cls="precalc/half-zero-secret"))
     for u in us:
         sk = rbytes(rng, 32)
         pk = refs.x25519_base(sk)
@@ -102,7 +121,24 @@ def post(res, cases, impl, model):
     res.extra["pairs_checked"] = len(pairs)
 
 
+def post_nightly(res, cases, impl, model):
+    """the precomputation forms that exist only on the nightly build (locked / read-only locked keys) must agree as well"""
+    post(res, cases, impl, model)
+    pc = [c for c in cases if c.line.startswith("precalc ")]
+    pc = pc[:: max(1, len(pc) // 150)]
+    lines = ["n%d %s" % (i, c.line) for i, c in enumerate(pc)]
+    nimpl = run_engine(build_runner("nightly"), lines)
+    for i, c in enumerate(pc):
+        a = nimpl.get("n%d" % i, ["missing"])[0]
+        res.evaluations += 1
+        res.count("nightly/" + c.cls)
+        base = impl.get(c.id, ["missing"])[0]
+        if a != base:
+            res.violations.append({"kind": "impl-mismatch" if a.startswith("mismatch") else "predicate", "line": c.line, "answers": {"impl(nightly build)": a[:300], "impl(stable build)": base[:300]},
+                                   "why": "box precomputation on the nightly build (locked / read-only locked key forms) differs from crypto_box_beforenm"})
+
+
 def run(tier, seed):
     return run_simple("C05", tier, seed, gen, TRUSTED,
                       "uniformly random (scalar, point) pairs (≈94% off the prime-order subgroup), the complete low-order / non-canonical / high-bit table × scalar bit patterns, u ∈ {0,1,p−1,p,p+1,2^255−1}, RFC 7748 vectors (1000-iteration vector in the thorough tier), honest DH/precalc/kx pairs with the mirror check, low-order peers; distinct by (op, implementation answer)",
-                      ["dalek arithmetic modelled by the Lean RFC 7748 ladder"], post=post)
+                      ["dalek arithmetic modelled by the Lean RFC 7748 ladder"], post=post_nightly)
